@@ -68,7 +68,8 @@ def is_write_open(ev):
 
 MUTATING = ("os.remove", "os.rename", "os.replace", "os.truncate", "os.mkdir", "os.rmdir", "os.chmod", "os.chown", "os.utime",
             "os.link", "os.symlink", "os.unlink", "shutil.", "subprocess.", "os.system", "os.exec", "os.posix_spawn",
-            "os.putenv", "tempfile.")
+            "os.putenv", "tempfile.", "os.setxattr", "os.removexattr", "os.chflags", "os.lchflags", "os.lchown", "os.lchmod",
+            "os.mkfifo", "os.mknod")
 NETWORK = ("socket.", "urllib.", "http.", "ftplib.")
 
 
